@@ -659,6 +659,10 @@ def build_xlsx(seed: int, feature: str | None = None, twin: bool = False):
     wb_rels = []
     sheets_xml = []
     file_no = list(range(1, n_sheets + 1))
+    draw_no = list(range(1, n_sheets + 1))
+    drng = random.Random(f"xlsx-drawings:{seed}")
+    if drng.random() < 0.5:
+        draw_no = drng.choice([draw_no[::-1], [n + 8 for n in draw_no], drng.sample(draw_no, len(draw_no))])
     if risky == "sheet-order-vs-file":
         file_no.reverse()
     feature_sheet = 1 if feature == "sheet-order-vs-file" else rng.randrange(n_sheets)
@@ -783,6 +787,8 @@ def build_xlsx(seed: int, feature: str | None = None, twin: bool = False):
         elif rng.random() < 0.3:
             n_img = rng.randint(1, 2)
         fno = file_no[s]
+        # drawing parts are numbered in the order the pictures were inserted, not in sheet order (and drawing10 sorts before drawing2)
+        dno = draw_no[s]
         if n_img:
             anchors, drels = [], []
             for _ in range(n_img):
@@ -806,9 +812,9 @@ def build_xlsx(seed: int, feature: str | None = None, twin: bool = False):
                                f'<xdr:ext cx="{im["w"] * 9525}" cy="{im["h"] * 9525}"/><xdr:pic><xdr:nvPicPr><xdr:cNvPr id="{img_no}" name="Pic {img_no}" descr="d"/><xdr:cNvPicPr/></xdr:nvPicPr>'
                                f'<xdr:blipFill><a:blip xmlns:r="{R_NS}" r:embed="rId{img_no}"/><a:stretch><a:fillRect/></a:stretch></xdr:blipFill><xdr:spPr/></xdr:pic><xdr:clientData/></xdr:oneCellAnchor>')
                 exp.images.append({"sha": im["sha"], "ctype": im["ctype"], "w": im["w"] or None, "h": im["h"] or None, "unit": s + 1})
-            parts[f"xl/drawings/drawing{fno}.xml"] = f'<?xml version="1.0" encoding="UTF-8"?><xdr:wsDr xmlns:xdr="{XDR}" xmlns:a="{A}">{"".join(anchors)}</xdr:wsDr>'.encode()
-            parts[f"xl/drawings/_rels/drawing{fno}.xml.rels"] = _rels(drels)
-            sheet_rels = [("rIdD", REL_T + "drawing", f"../drawings/drawing{fno}.xml", None)]
+            parts[f"xl/drawings/drawing{dno}.xml"] = f'<?xml version="1.0" encoding="UTF-8"?><xdr:wsDr xmlns:xdr="{XDR}" xmlns:a="{A}">{"".join(anchors)}</xdr:wsDr>'.encode()
+            parts[f"xl/drawings/_rels/drawing{dno}.xml.rels"] = _rels(drels)
+            sheet_rels = [("rIdD", REL_T + "drawing", f"../drawings/drawing{dno}.xml", None)]
             legacy = ""
             if rng.random() < 0.4:
                 # a cell comment: comments part + legacy VML drawing; relationship order inside a .rels part carries no meaning
